@@ -171,6 +171,7 @@ package agessh
 //@ func NewEncryptedSSHIdentity(pubKey, pemBytes, passphrase) (i, err)
 //@   requires pubKey != nil
 //@   ensures#nonnil err == nil ==> i != nil && i.recipient != nil && same(i.pemBytes, pemBytes) && i.pubKey == pubKey && i.decrypted == nil   [C14 C18 C19]
+//@   ensures#callback err == nil ==> i.passphrase == passphrase                                                     [C19]
 //@   ensures#nilerr err != nil ==> i == nil                                                                         [C14]
 
 // Data-structure invariant of EncryptedSSHIdentity (established by
